@@ -56,7 +56,10 @@ SCENARIOS = {
                    dict(name='proid.web', demand=[512, 0, 512], affinity='web',
                         identity_group='proid.g1', data_retention_timeout='1s'),
                    dict(name='proid.lim', demand=[512, 0, 512], affinity='lim',
-                        affinity_limits={'rack': 1, 'server': 1}, data_retention_timeout='2s')],
+                        affinity_limits={'rack': 1, 'server': 1}, data_retention_timeout='2s'),
+                   # a trait no server of the cell offers (and the cell does not know):
+                   # never placeable, whatever is re-loaded
+                   _man('other.app', 1, 1, 1, traits=['nosuch'])],
         groups={'proid.g1': 3},
         apps=['a1', 'a2', 'a3', 'a4']),
     # (filled in below) 'hetero': base + instances that share an affinity NAME but
